@@ -152,12 +152,32 @@ func (h *Host) handleAfterMessageStored(msg event.MessageMetadata) {
 	}
 }
 
+// ownSession returns a copy of session whose addresses the script may change freely: what a
+// handler does to its argument must not reach the listeners consulted after it.
+func ownSession(session event.SMTPSession) event.SMTPSession {
+	if session.From != nil {
+		from := *session.From
+		session.From = &from
+	}
+	to := make([]*mail.Address, 0, len(session.To))
+	for _, a := range session.To {
+		if a != nil {
+			addr := *a
+			a = &addr
+		}
+		to = append(to, a)
+	}
+	session.To = to
+	return session
+}
+
 func (h *Host) handleBeforeMailFromAccepted(session event.SMTPSession) *event.SMTPResponse {
 	logger, ls, ib, ok := h.prepareInbucketFuncCall("before.mail_from_accepted")
 	if !ok {
 		return nil
 	}
 	defer h.pool.putState(ls)
+	session = ownSession(session)
 
 	logger.Debug().Msgf("Calling Lua function with %+v", session)
 	if err := ls.CallByParam(
@@ -186,6 +206,7 @@ func (h *Host) handleBeforeRcptToAccepted(session event.SMTPSession) *event.SMTP
 		return nil
 	}
 	defer h.pool.putState(ls)
+	session = ownSession(session)
 
 	logger.Debug().Msgf("Calling Lua function with %+v", session)
 	if err := ls.CallByParam(
